@@ -5,8 +5,10 @@
 (* converted to numbers (Size4 returns -1 = "negative").                    *)
 EXTENDS Integers, Sequences
 
-\* Byte i (0-based) of the pattern stream with the given seed.
-PatByte(seed, i) == (i * 131 + (i \div 256) + seed * 17) % 256
+\* Byte i (0-based) of the pattern stream with the given seed.  The quadratic term makes shifted copies of a
+\* pattern different from every other pattern (a linear pattern shifted by k is another seed's pattern, which
+\* lets two different (seed, offset) descriptions denote the same bytes).
+PatByte(seed, i) == LET q == i % 256 IN (q * q * 7 + i * 131 + (i \div 256) + seed * 17) % 256
 
 \* A segment is  [r |-> <<seed, off, len>>]  (len bytes of pattern `seed` from offset off),
 \*               [l |-> <<b1, ..., bn>>]     (literal bytes) or
